@@ -468,6 +468,8 @@ pub fn generate_c16(seed: u64, run: u64, corpus: &Corpus, tier: Tier, stats: &mu
                 kind: if rng.chance(1, 2) { PolicyKind::Sequential } else { PolicyKind::Random },
                 seed: rng.next_u64(),
                 depth: 0,
+                io_only: rng.chance(1, 2),
+                horizon: 0,
             };
             for ix in 0..c.files.len() {
                 if rng.chance(1, 3) {
@@ -724,6 +726,8 @@ pub fn gen_policy(rng: &mut Rng) -> Policy {
         kind,
         seed: rng.next_u64(),
         depth: rng.range(1, 3) as u32,
+        io_only: rng.chance(1, 2),
+        horizon: 0,
     }
 }
 
